@@ -132,8 +132,17 @@ def random_plan(seed, idx):
     r = rng(seed, ID, idx)
     b = B(announce=r.choice([(0, 1), (0, 1, 2), (0,)]))
     far = r.random() < 0.06  # this plan runs the clock past 0xFFFFFF s (needs a quiet configuration: no periodic offers)
-    for _ in range(r.randint(5, 40)):
+    nsteps = r.randint(5, 40)
+    crowd_at = r.randrange(nsteps) if r.random() < 0.08 else None
+    for step in range(nsteps):
         b.random_time(r)
+        if step == crowd_at:
+            # a crowd: several hundred further SD endpoints are heard once (both channels) between two steps of the
+            # history - what the stack knows about the subscribers' sessions must survive that
+            for j in range(r.choice([130, 260, 300, 520])):
+                b.sd(3, "um"[j % 2], [["find", 0x7777, 0xFFFF, 0xFF, 0xFFFFFFFF, 3]], port=41000 + j // 2)
+                b.t = round(b.t - b.GAP + 0.0005, 9)
+            b.t = round(b.t + b.GAP, 9)
         k = r.random()
         p = r.randrange(3)
         ins = r.choice([0, 0, 0, 1, 2])
